@@ -192,7 +192,7 @@ def run(sess):
                               'parsed as %s which differs from the textbook valuation' % P.expr_to_text(ctx, prog, extra),
                               {'tokens': toks}, cli_replay(toks), fam)
 
-        ex.explore(runp, on_path, time_budget=240 if sess.tier == 'quick' else 1500)
+        ex.explore(runp, on_path, time_budget=480 if sess.tier == 'quick' else 1500)
     ok_n = sum(1 for v in seen.values() if v == 'ok')
     sess.discharged('formula: %d well-formed token sequences (<= %d tokens) evaluate as the textbook says' % (ok_n, maxn),
                     family=fam, queries=max(1, stats['formulas']))
